@@ -5,6 +5,7 @@ package redisemu
 import (
 	"fmt"
 	"sync"
+	"sync/atomic"
 	"time"
 )
 
@@ -18,7 +19,7 @@ func SimResetGlobals() {
 	infoMu.Lock()
 	info = redisStats{run_id: info.run_id}
 	infoMu.Unlock()
-	signals = 0
+	atomic.StoreInt64(&signals, 0)
 }
 
 // SimClientCount reports the size of the package-level client registry.
